@@ -169,6 +169,10 @@ def check(tr):
             news.append((c["s0"], cfg, c["trial"]))
     # ---- R2 initial points first, imputed by the mid-point rule, duplicates removed -------
     pte = tr.hist.final.get("pte")
+    restrict0 = scen["scheduler"].get("restrict_configurations")
+    if pte is not None and restrict0:
+        # documented: initial points outside restrict_configurations are removed; imputed points are not judged here
+        pte = None
     if pte is not None and kind not in ("dehb", "pbt", "moasha"):
         want = []  # list of dict name -> list of acceptable values
         want_src = []
@@ -203,7 +207,19 @@ def check(tr):
                 i, j, n, cfg.get(n), acc[n]), seq, domain=specs[n][0], given=n in (want_src[j])))
             break
     # ---- R3 no repeats -----------------------------------------------------------------------
-    if kind in NOREPEAT_KINDS:
+    allow_dup = bool(scen["scheduler"].get("allow_duplicates"))
+    restrict = scen["scheduler"].get("restrict_configurations")
+    if restrict:
+        inside = {tuple(repr(c_.get(n)) for n in hp_names) for c_ in restrict}
+        npte = len(tr.hist.final.get("pte") or [{}])
+        for j, (seq, cfg, tid) in enumerate(news):
+            if j < npte:
+                continue
+            if tuple(repr(cfg.get(n)) for n in hp_names) not in inside:
+                out.append(V("C06", "R1.outside_restrict", tr, "trial %s gets a configuration outside restrict_configurations" % tid, seq))
+                break
+        size = len(inside | {tuple(repr(c_.get(n)) for n in hp_names) for _, c_, _ in news[:npte]})
+    if kind in NOREPEAT_KINDS and not allow_dup:
         seenhp = {}
         for seq, cfg, tid in news:
             hp = tuple(repr(cfg.get(n)) for n in hp_names)
@@ -212,13 +228,13 @@ def check(tr):
                 break
             seenhp[hp] = tid
     # ---- R4 exhaustion only when the space is used up ---------------------------------------------
-    if first_none is not None and kind in NOREPEAT_KINDS | {"dehb"}:
+    if first_none is not None and kind in NOREPEAT_KINDS | {"dehb"} and not allow_dup:
         distinct = {tuple(repr(cfg.get(n)) for n in hp_names) for seq, cfg, tid in news if seq < first_none["s0"]}
         if (size is None or len(distinct) < size) and not grid_unknown:
             rem = None if size is None else (size - len(distinct)) / float(size)
             out.append(V("C06", "R4.premature_exhaustion", tr, "suggest answered 'nothing left' with %d of %s configurations used" % (
                 len(distinct), size), first_none["s0"], few_left=bool(rem is not None and rem <= 0.25),
-                searcher="grid" if kind == "fifo_grid" else "random" if not kind.endswith(("_bo", "hypertune", "dyhpo")) else "model"))
+                searcher="grid" if kind == "fifo_grid" else "random"))  # model-based searchers draw their candidates with the same retry limit
     return out
 
 
